@@ -2,6 +2,7 @@ import Driver.Util
 import BSEModel.ManipOps
 import BSEModel.Canon
 import BSEModel.Validator
+import BSEModel.Compare
 import BSEGen.Api
 import BSEGen.Manip
 open Lean BSE BSE.Drv
@@ -75,7 +76,22 @@ def decodePot (j : Json) : Except String (Pot String) := do
 def potsParse (l : List (Pot String)) : Bool :=
   l.all fun p => p.gexp.all (fun x => (parseNum x).isSome) && p.coefs.all (·.all fun x => (parseNum x).isSome)
 
+def decodeKeyed (j : Json) : Except String (List (BSE.Cmp.Keyed String)) := do
+  (← j.getArr?).toList.mapM fun t => do
+    let sh ← decodeShell (← t.getObjVal? "shell")
+    let rsq ← (← getArr t "rsq").mapM decodeRat
+    pure (sh, rsq)
+
 def handlers : List (String × Handler) := [
+  ("compare_lists", fun j => do
+    let a ← decodeKeyed (← j.getObjVal? "a")
+    let b ← decodeKeyed (← j.getObjVal? "b")
+    let tol ← decodeRat (← j.getObjVal? "tol")
+    let cm ← getBool j "meta"
+    let R := BSE.Cmp.compareShells numVal tol cm
+    pure (obj [("equal", toJson (BSE.Cmp.equalBy R a b)), ("subset", toJson (BSE.Cmp.subsetBy R a b)),
+               ("first_pair", toJson (match a, b with | x :: _, y :: _ => R x y | _, _ => false)),
+               ("diff", encodeShells ((BSE.Cmp.subtractBy R a b).map (·.1)))])),
   ("validate_el", fun j => do
     let shells ← match j.getObjVal? "shells" with
       | .ok (Json.arr a) => do pure (some (← a.toList.mapM decodeShell))
